@@ -818,6 +818,7 @@ static int real_main(int argc, char** argv) {
     /* the same shapes with member counts up to 2^16+1 (thorough: 2^20+1), one summary line per load: accepted, bytes read, member count,
      * the first and last members, everything released. Judged by Trace_Wide. */
     int all = a + 1 < argc && atoi(argv[a + 1]) > 0;
+    va_cap = 0; /* no size cap here: whatever growth policy the library uses, these requests are granted */
     static const size_t counts_q[] = {23, 24, 255, 256, 257, 511, 512, 513, 1023, 1024, 1025, 2047, 2048, 2049, 4095, 4096, 4097, 6143, 6144, 6145, 8191, 8192, 8193, 12289, 16385, 32769, 65535, 65536, 65537};
     static const size_t counts_x[] = {98305, 131071, 131072, 131073, 262145, 524289, 1048575, 1048576, 1048577};
     size_t maxc = all ? 1048577 : 65537;
